@@ -56,13 +56,17 @@ __CPROVER_ensures((__CPROVER_return_value == 1) == ANY3(nd, WDE_EDGE))
 
 /* wrap: same mapping for periodic components; an out-of-range non-periodic component is a (bug) error,
    after which the remaining components are not processed. */
+#define WDE_EDGE_OLD(k) (!per[k] && !(0 <= __CPROVER_old(ix[k]) && __CPROVER_old(ix[k]) < nx[k]))
+#define WRAP_WEAK(k) ((!per[k] ==> ix[k] == __CPROVER_old(ix[k])) && (per[k] ==> (ix[k] == __CPROVER_old(ix[k]) || \
+   (INRANGE(ix, nx, k) && (ix[k] == __CPROVER_old(ix[k]) + nx[k] || ix[k] == __CPROVER_old(ix[k]) - nx[k])))))
 int k_wrap(int *ix, int *nx, _Bool *per, size_t nd)
 __CPROVER_requires(GI_PRE3(ix, nx, nd) && __CPROVER_is_fresh(per, NDB * sizeof(_Bool)))
 __CPROVER_requires(ALL3(nd, WDE_PRE))
 __CPROVER_assigns(GI_GHOSTS, __CPROVER_object_whole(ix), g_errors, g_error_bits)
-__CPROVER_ensures((g_errors == __CPROVER_old(g_errors)) ==> (ALL3(nd, WDE_POST) && !ANY3(nd, WDE_EDGE)))
-__CPROVER_ensures((g_errors != __CPROVER_old(g_errors)) ==> ANY3(nd, WDE_EDGE))
-__CPROVER_ensures(ANY3(nd, WDE_EDGE) ==> g_errors == __CPROVER_old(g_errors) + 1)
+__CPROVER_ensures(ALL3(nd, WRAP_WEAK))
+__CPROVER_ensures((g_errors == __CPROVER_old(g_errors)) ==> (ALL3(nd, WDE_POST) && !ANY3(nd, WDE_EDGE_OLD)))
+__CPROVER_ensures((g_errors != __CPROVER_old(g_errors)) ==> ANY3(nd, WDE_EDGE_OLD))
+__CPROVER_ensures(ANY3(nd, WDE_EDGE_OLD) ==> g_errors == __CPROVER_old(g_errors) + 1)
 ;
 
 /* incr: on an in-range index, the lexicographic successor with the last dimension fastest;
